@@ -165,6 +165,31 @@ def _type_check_operation(expression, source_file_name, ir, errors):
         _type_check_choice_operator(expression, source_file_name, errors)
     else:
         _type_check_monomorphic_operator(expression, source_file_name, errors)
+        if function == ir_data.FunctionMapping.PRESENCE:
+            _check_that_presence_argument_is_a_field(
+                expression, source_file_name, ir, errors
+            )
+
+
+def _check_that_presence_argument_is_a_field(expression, source_file_name, ir, errors):
+    """Checks that the argument of $present() names a field, not a parameter."""
+    for arg in expression.function.args:
+        if arg.which_expression != "field_reference":
+            continue  # Already reported.
+        referrent = ir_util.find_object_or_none(arg.field_reference.path[-1], ir)
+        if isinstance(referrent, ir_data.RuntimeParameter):
+            # A parameter has no existence condition: it is always present.
+            errors.append(
+                [
+                    error.error(
+                        source_file_name,
+                        arg.source_location,
+                        "Argument 0 of function '{}' must be a field.".format(
+                            expression.function.function_name.text
+                        ),
+                    )
+                ]
+            )
 
 
 def _type_check_monomorphic_operator(expression, source_file_name, errors):
